@@ -212,6 +212,95 @@ def _check(case):
     return {"labels": labels, "nontrivial": True}
 
 
+# ---------------------------------------------------------------------------
+# Data variants: one call over a databox with two variants of the shock paths
+# ---------------------------------------------------------------------------
+
+@st.composite
+def _variants_case(draw):
+    case = draw(_case())
+    n, N = case["spec"]["n"], case["N"]
+    val = st.sampled_from([0.5, -0.5, 0.3, 1.0, -0.2, 0.1])
+    case["ushocks2"] = [list(x) for x in draw(st.lists(st.tuples(st.integers(0, n - 1), st.integers(0, N - 1), val), min_size=1, max_size=3))]
+    return case
+
+
+def _classify_variants(case):
+    nontrivial, labels = _classify(case)
+    d0 = {x[1] for x in case["ushocks"]}
+    d1 = {x[1] for x in case["ushocks2"]}
+    labels = list(labels) + (["shock_dates_differ_across_variants"] if d0 != d1 else ["same_shock_dates"])
+    return d0 != d1, labels
+
+
+def _check_variants(case):
+    """Each variant of one simulation over two data variants equals the simulation of that variant's data alone
+    (which the sub-check above judges by the equations)."""
+    import irispie as ir
+    col = Collector()
+    spec = case["spec"]
+    if lm.steady(spec)[0] is None:
+        return {"labels": ["singular_or_extreme_steady"], "nontrivial": False}
+    if lm.classify(spec, margin=0.1)[0] != "determinate":
+        return {"labels": ["model_not_in_domain"], "nontrivial": False}
+    L, F = lm.shifts(spec)
+    N, method = case["N"], case["method"]
+    if method == "period_by_period" and sum(F):
+        method = "stacked_time"
+    start = ir.qq(2020, 1)
+    Lmax, Fmax = lm.max_lag_lead(spec)
+    Lmax = max(Lmax, 1)
+    m = api("build_and_solve", lm.build_model, spec)
+    span = start >> (start + N - 1)
+    kwargs = dict(method=method, return_info=True,
+                  solver_settings={"func_tolerance": 1e-10, "step_tolerance": float("inf"), "max_iterations": 200})
+    if method == "stacked_time":
+        kwargs.update(terminal=case["terminal"], initial_guess=case["initial_guess"])
+    dbs = []
+    for ushocks in (case["ushocks"], case["ushocks2"]):
+        ush, ash = sd.effective_shocks(spec, ushocks, case["ashocks"])
+        if method == "period_by_period":
+            ash = []
+        db = sd.steady_db(m, spec, start, -Lmax, N + Fmax + 2, False)
+        sd.apply_init(db, spec, start, case["init"], False)
+        sd.apply_shocks(db, spec, start, ush, ash)
+        dbs.append(db)
+    both = dbs[0].copy()
+    full = (start - Lmax) >> (start + N + Fmax + 2)
+    for s_ in [x for x in lm.shock_names(spec) if x]:
+        cols = [np.asarray(d_[s_].get_data(full), dtype=float)[:, 0] for d_ in dbs]
+        both[s_] = ir.Series(start=start - Lmax, values=np.column_stack(cols))
+
+    def ok(info):
+        infos = info if isinstance(info, (list, tuple)) else [info]
+        return all(i_.get("exit_status") and all(getattr(x, "is_success", False) for x in i_["exit_status"]) for i_ in infos)
+    try:
+        singles = [m.simulate(d_, span, **kwargs) for d_ in dbs]
+        out2, info2 = m.simulate(both, span, num_variants=2, **kwargs)
+    except Exception as exc:  # noqa: BLE001 - only reported success is judged
+        return {"labels": [f"not_completed:{type(exc).__name__}"], "nontrivial": False}
+    if not (ok(info2) and all(ok(i_) for _, i_ in singles)):
+        return {"labels": ["reported_non_success"], "nontrivial": False}
+    for v in range(2):
+        for nm in spec["names"] + lm.meas_names(spec):
+            a = np.asarray(out2[nm].get_data(span), dtype=float)
+            b = np.asarray(singles[v][0][nm].get_data(span), dtype=float)[:, 0]
+            if not col.check(a.ndim == 2 and a.shape[1] == 2, "variants:columns", lambda: f"{nm}: shape {a.shape} for two data variants"):
+                continue
+            a = a[:, v]
+            if spec["log"] and (np.any(a <= 0) or np.any(b <= 0) or float(np.max(np.abs(np.log(b)))) > 12 + 5):
+                return {"labels": ["collapsed_pseudo_solution"], "nontrivial": False}
+            d = np.abs(np.log(a) - np.log(b)) if spec["log"] else np.abs(a - b)
+            sc = 1.0 + float(np.max(np.abs(np.log(b) if spec["log"] else b)))
+            worst = float(np.max(d)) if np.all(np.isfinite(d)) else float("inf")
+            col.check(worst <= 1e-6 * sc, "variants:differs_from_single_run",
+                      lambda: f"variant {v}, {nm}: simulated together with the other variant differs from the same data simulated alone by {worst:.3e} "
+                              f"({method}, terminal={case['terminal']}, guess={case['initial_guess']})\n{lm.source(spec)}")
+    col.done()
+    return {"labels": ["judged"], "nontrivial": True}
+
+
 SUBCHECKS = [
     HypSub("nonlinear", _case, _check, _classify, budget={"quick": 600, "thorough": 40000}),
+    HypSub("data_variants", _variants_case, _check_variants, _classify_variants, budget={"quick": 300, "thorough": 10000}),
 ]
